@@ -34,6 +34,7 @@ def run(tier, seed, ev):
     sc = V.scratch("c12")
     cases = []
     cases += HG.identity_cross_product()
+    cases += HG.level0_area_lengths()
     bases = base_headers(rng, 16 if tier == "quick" else 120)
     for h, hdrlen in bases:
         cases.append(h)
